@@ -25,6 +25,9 @@ pub struct RustDocument {
     pub(crate) soap_services: Vec<SoapService>,
     /// nesting depth of forward-reference lookups in the XML tree (see `find_node_by_xml_name`)
     forward_lookup_depth: usize,
+    /// nodes that were already converted to resolve a forward reference; without this every
+    /// further reference to the same component converts it (and all it refers to) again
+    forward_nodes: Vec<Rc<RustNode>>,
 }
 
 /// A forward reference is resolved by converting the referenced XML node on the spot, which may
@@ -65,6 +68,7 @@ impl RustDocument {
             soap_bindings: Vec::new(),
             soap_services: Vec::new(),
             forward_lookup_depth: 0,
+            forward_nodes: Vec::new(),
         }
     }
 
@@ -148,7 +152,7 @@ impl RustDocument {
         xml_name: &str,
         namespace: Option<&Namespace>,
     ) -> Option<Rc<RustNode>> {
-        let rust_node = self.nodes.iter().find(|node| {
+        let rust_node = self.nodes.iter().chain(self.forward_nodes.iter()).find(|node| {
             node.rust_type.xml_name().is_some_and(|n| n == xml_name) && node.in_namespace.as_deref() == namespace
         });
 
@@ -164,7 +168,9 @@ impl RustDocument {
         let alt_node = try_to_find_node_by_xml_name_in_xml_doc(start_node, xml_name, namespace, self);
         self.forward_lookup_depth -= 1;
 
-        Some(alt_node.ok()?.into())
+        let alt_node: Rc<RustNode> = alt_node.ok()?.into();
+        self.forward_nodes.push(alt_node.clone());
+        Some(alt_node)
     }
 
     pub fn find_message_by_xml_name(&self, xml_name: &str, _namespace: Option<&Namespace>) -> Option<&Rc<SoapMessage>> {
